@@ -4,6 +4,7 @@ import (
 	"bytes"
 	"encoding/hex"
 	"fmt"
+	"runtime"
 	"testing"
 	"time"
 
@@ -20,7 +21,28 @@ type FDCase struct {
 	Frames []string `json:"frames"` // hex of whole Ethernet frames (may be shorter than an Ethernet header)
 }
 
+// runFD runs the barrage under the same watchdog as the tap barrage: a
+// write that blocks for good (the dispatch goroutine is wedged inside the
+// stack) or a Close that never returns is a violation, not a hang of the check.
 func runFD(c FDCase) *evid.Failure {
+	for attempt := 0; ; attempt++ {
+		done := make(chan *evid.Failure, 1)
+		go func() { done <- evid.Guard(func() *evid.Failure { return runFDOnce(c) }) }()
+		select {
+		case f := <-done:
+			return f
+		case <-time.After(45 * time.Second):
+			if attempt == 0 {
+				continue
+			}
+			buf := make([]byte, 1<<20)
+			n := runtime.Stack(buf, true)
+			return evid.Failf("liveness:wedged", "the fd barrage or its liveness probes did not return within 45 s (twice): a goroutine is blocked inside the stack\n%s", wedgedIn(string(buf[:n])))
+		}
+	}
+}
+
+func runFDOnce(c FDCase) *evid.Failure {
 	evid.Journal("fd-barrage", c)
 	fd, err := netsim.NewFD(1500, []tcpip.Address{netsim.A4}, []tcpip.Address{netsim.A6}, nil)
 	if err != nil {
